@@ -246,8 +246,43 @@ def _read_sites(chk, prog, M, mk, fx):
                 i0 = strip(kids(x)[-1], casts=True)
                 if i0.get("kind") == "MemberExpr" and i0.get("name") == FIELD:
                     aliases[x["id"]] = i0
+        # a working copy: initialised from the field, adjusted only by `|=` / `&=` with option masks, stored back into the field
+        for x in walk(prog.body(f)):
+            if x.get("kind") == "VarDecl" and kids(x) and x["name"] in reassigned and x["id"] not in aliases:
+                i0 = strip(kids(x)[-1], casts=True)
+                if not (i0.get("kind") == "MemberExpr" and i0.get("name") == FIELD):
+                    continue
+                mods = [y for y in walk(prog.body(f)) if y.get("kind") in ("BinaryOperator", "CompoundAssignOperator") and
+                        y.get("opcode", "").endswith("=") and y.get("opcode") not in ("==", "!=", "<=", ">=") and
+                        strip(kids(y)[0]).get("kind") == "DeclRefExpr" and (strip(kids(y)[0]).get("referencedDecl") or {}).get("id") == x["id"]]
+                allm = 0
+                for mvv in maskvals:
+                    allm |= mvv
+                okm = True
+                for y in mods:
+                    v_ = ConstEval(prog).try_eval(kids(y)[1])
+                    if y.get("opcode") == "|=":
+                        okm = okm and v_ is not None and (v_ & 0xff & ~allm) == 0
+                    elif y.get("opcode") == "&=":
+                        okm = okm and v_ is not None and (~v_ & 0xff & ~allm) == 0
+                    else:
+                        okm = False
+                stored_back = any(y.get("kind") == "BinaryOperator" and y.get("opcode") == "=" and strip(kids(y)[0]).get("kind") == "MemberExpr" and
+                                  strip(kids(y)[0]).get("name") == FIELD and strip(kids(y)[1], casts=True).get("kind") == "DeclRefExpr" and
+                                  (strip(kids(y)[1], casts=True).get("referencedDecl") or {}).get("id") == x["id"] for y in walk(prog.body(f)))
+                if okm and stored_back:
+                    aliases[x["id"]] = i0
+                    nreads += len(mods)
+                    chk.ok("READ", "READ/adjust/%s/working-copy" % fn, loc_str(x), "a working copy of the option field is adjusted only by setting/clearing option bits and stored back")
         for m, parents in walk_with_parents(prog.body(f)):
             is_alias_use = m.get("kind") == "DeclRefExpr" and (m.get("referencedDecl") or {}).get("id") in aliases
+            if is_alias_use and parents:
+                p0 = [pp for pp in parents if pp.get("kind") not in ("ImplicitCastExpr", "ParenExpr", "CStyleCastExpr")]
+                if p0 and p0[-1].get("kind") == "CompoundAssignOperator" and strip(kids(p0[-1])[0]) is m:
+                    continue            # `opt |= MASK`: checked with the working copy above
+                if p0 and p0[-1].get("kind") == "BinaryOperator" and p0[-1].get("opcode") == "=" and strip(kids(p0[-1])[0]).get("kind") == "MemberExpr" and \
+                        strip(kids(p0[-1])[0]).get("name") == FIELD:
+                    continue            # the store back
             if not is_alias_use and (m.get("kind") != "MemberExpr" or m.get("name") != FIELD):
                 continue
             if not is_alias_use and parents and any(pp.get("kind") == "VarDecl" and pp.get("id") in aliases for pp in parents[-3:]):
